@@ -200,10 +200,11 @@ CONFIGS["LazyMove"] = dict(  # blocks moved between two intervals from the recei
     IRs={"i1"}, Modules={"m1"}, Sections={"s1"}, Intervals={"v1", "v2"}, CodeBlocks={"c1", "c2"},
     Families={("set", "blk"), "lookup", "lazy"}, ArgMax=1, Queries={(0, 1, 1)}, LazyK=3,
     Attach0=CHAIN + [("v1", "s1"), ("v2", "s1"), ("c1", "v1"), ("c2", "v1")], EmitKeys=set(LAZY_KEYS))
-CONFIGS["LazySetI"] = dict(  # the section's own set interface under lazy tracking (a member handed to its own set again, ...)
+CONFIGS["LazySetI"] = dict(  # the section's own set interface under lazy tracking (a member handed to its own set again, ...;
+    # v3 has no address: it joins and leaves without an index event)
     IRs={"i1"}, Modules={"m1"}, Sections={"s1"}, Intervals={"v1", "v2", "v3"},
     Addrs={1}, ISizes={2}, Families={("set", "biv"), "lookup", "lazy"}, ArgMax=1,
-    Geom0={("v1", 1, 2), ("v2", 1, 2), ("v3", 1, 2)}, Queries={(0, 4, 1)}, LazyK=3, Attach0=CHAIN + [("v1", "s1"), ("v2", "s1"), ("v3", "s1")], EmitKeys=set(LAZY_KEYS))
+    Geom0={("v1", 1, 2), ("v2", 1, 2)}, Queries={(0, 4, 1)}, LazyK=3, Attach0=CHAIN + [("v1", "s1"), ("v2", "s1"), ("v3", "s1")], EmitKeys=set(LAZY_KEYS))
 CONFIGS["LazySim"] = dict(CONFIGS["GeomSim"], Families={"geom", "parent", "set", "lookup", "lazy", "reload"},
                           Queries={(0, 3, 1), (2, 9, 1), (1, 12, 2), (5, 6, 1)}, LazyK=5,
                           EmitKeys=set(LAZY_KEYS))
